@@ -147,6 +147,9 @@ pub enum Op {
     FromParse { r: usize, es: Vec<(String, V)> },
     ExtendEntries { r: usize, es: Vec<(String, V)> },
     ExtendPairs { r: usize, es: Vec<(String, V)> },
+    /// `extend` from a source iterator that panics after yielding `after` items (a fault of the
+    /// caller-provided iterator); `pairs`: through `Extend<(Key, Value)>` instead of `Extend<Entry>`
+    ExtendPanicking { r: usize, es: Vec<(String, V)>, after: usize, pairs: bool },
     /// extend register r with a clone of the entries of register s
     ExtendFrom { r: usize, s: usize },
     /// through `iter_mut()`, replace the value of entry `i` (if any)
@@ -167,20 +170,20 @@ impl Op {
         match self {
             Op::Push { .. } => "push", Op::PushEntry { .. } => "push_entry", Op::PushFront { .. } => "push_front", Op::PushEntryFront { .. } => "push_entry_front",
             Op::Insert { .. } => "insert", Op::InsertFront { .. } => "insert_front", Op::Remove { .. } => "remove", Op::RemoveAt { .. } => "remove_at", Op::RemoveUnique { .. } => "remove_unique",
-            Op::Sort { .. } => "sort", Op::FromVec { .. } => "from_vec", Op::FromIterEntries { .. } => "from_iter_entries", Op::FromIterPairs { .. } => "from_iter_pairs", Op::FromParse { .. } => "from_parse",
+            Op::Sort { .. } => "sort", Op::FromVec { .. } => "from_vec", Op::FromIterEntries { .. } => "from_iter_entries", Op::FromIterPairs { .. } => "from_iter_pairs", Op::FromParse { .. } => "from_parse", Op::ExtendPanicking { .. } => "extend_panicking",
             Op::ExtendEntries { .. } => "extend_entries", Op::ExtendPairs { .. } => "extend_pairs", Op::ExtendFrom { .. } => "extend_from", Op::IterMutSet { .. } => "iter_mut_set",
             Op::GetMutSet { .. } => "get_mut_set", Op::GetUniqueMutSet { .. } => "get_unique_mut_set", Op::GetOrInsertWith { .. } => "get_or_insert_with",
             Op::GetMutOrInsertWith { .. } => "get_mut_or_insert_with", Op::CloneTo { .. } => "clone_to", Op::IntoIterRebuild { .. } => "into_iter_rebuild", Op::Fresh { .. } => "fresh",
         }
     }
-    pub const NAMES: [&'static str; 25] = ["push", "push_entry", "push_front", "push_entry_front", "insert", "insert_front", "remove", "remove_at", "remove_unique", "sort", "from_vec",
+    pub const NAMES: [&'static str; 26] = ["push", "push_entry", "push_front", "push_entry_front", "insert", "insert_front", "remove", "remove_at", "remove_unique", "sort", "from_vec",
         "from_iter_entries", "from_iter_pairs", "extend_entries", "extend_pairs", "extend_from", "iter_mut_set", "get_mut_set", "get_unique_mut_set", "get_or_insert_with",
-        "get_mut_or_insert_with", "clone_to", "into_iter_rebuild", "fresh", "from_parse"];
+        "get_mut_or_insert_with", "clone_to", "into_iter_rebuild", "fresh", "from_parse", "extend_panicking"];
     pub fn index(&self) -> usize { Op::NAMES.iter().position(|n| *n == self.name()).unwrap() }
     pub fn reg(&self) -> usize {
         match self {
             Op::Push { r, .. } | Op::PushEntry { r, .. } | Op::PushFront { r, .. } | Op::PushEntryFront { r, .. } | Op::Insert { r, .. } | Op::InsertFront { r, .. } | Op::Remove { r, .. }
-            | Op::RemoveAt { r, .. } | Op::RemoveUnique { r, .. } | Op::Sort { r } | Op::FromVec { r, .. } | Op::FromIterEntries { r, .. } | Op::FromIterPairs { r, .. } | Op::FromParse { r, .. } | Op::ExtendEntries { r, .. }
+            | Op::RemoveAt { r, .. } | Op::RemoveUnique { r, .. } | Op::Sort { r } | Op::FromVec { r, .. } | Op::FromIterEntries { r, .. } | Op::FromIterPairs { r, .. } | Op::FromParse { r, .. } | Op::ExtendPanicking { r, .. } | Op::ExtendEntries { r, .. }
             | Op::ExtendPairs { r, .. } | Op::ExtendFrom { r, .. } | Op::IterMutSet { r, .. } | Op::GetMutSet { r, .. } | Op::GetUniqueMutSet { r, .. } | Op::GetOrInsertWith { r, .. }
             | Op::GetMutOrInsertWith { r, .. } | Op::CloneTo { r, .. } | Op::IntoIterRebuild { r } | Op::Fresh { r } => *r,
         }
@@ -193,7 +196,7 @@ impl Op {
         }
     }
     pub fn entries(&self) -> Option<&Vec<(String, V)>> {
-        match self { Op::FromVec { es, .. } | Op::FromIterEntries { es, .. } | Op::FromIterPairs { es, .. } | Op::FromParse { es, .. } | Op::ExtendEntries { es, .. } | Op::ExtendPairs { es, .. } => Some(es), _ => None }
+        match self { Op::FromVec { es, .. } | Op::FromIterEntries { es, .. } | Op::FromIterPairs { es, .. } | Op::FromParse { es, .. } | Op::ExtendPanicking { es, .. } | Op::ExtendEntries { es, .. } | Op::ExtendPairs { es, .. } => Some(es), _ => None }
     }
     pub fn cancel(&self) -> Option<Cancel> { match self { Op::Insert { c, .. } | Op::InsertFront { c, .. } | Op::Remove { c, .. } => Some(*c), _ => None } }
 
@@ -211,6 +214,7 @@ impl Op {
             Op::RemoveAt { i, .. } | Op::IterMutSet { i, .. } => o.push(("index".into(), J::UInt(*i as u64))),
             Op::GetMutSet { pull, .. } => o.push(("pull".into(), J::UInt(*pull as u64))),
             Op::ExtendFrom { s, .. } => o.push(("src".into(), J::UInt(*s as u64))),
+            Op::ExtendPanicking { after, pairs, .. } => { o.push(("panic_after".into(), J::UInt(*after as u64))); o.push(("pairs".into(), J::Bool(*pairs))); }
             Op::CloneTo { dst, from, .. } => { o.push(("dst".into(), J::UInt(*dst as u64))); o.push(("clone_from".into(), J::Bool(*from))); }
             Op::GetMutOrInsertWith { set, .. } => o.push(("set".into(), set.as_ref().map(V::to_json).map(|j| J::Arr(vec![j])).unwrap_or(J::Arr(vec![])))),
             _ => {}
@@ -231,7 +235,7 @@ impl Op {
             "push_front" => Op::PushFront { r, k: k()?, v: v()? }, "push_entry_front" => Op::PushEntryFront { r, k: k()?, v: v()? },
             "insert" => Op::Insert { r, k: k()?, v: v()?, c: c()? }, "insert_front" => Op::InsertFront { r, k: k()?, v: v()?, c: c()? },
             "remove" => Op::Remove { r, k: k()?, c: c()? }, "remove_at" => Op::RemoveAt { r, i: u("index")? }, "remove_unique" => Op::RemoveUnique { r, k: k()? },
-            "sort" => Op::Sort { r }, "from_vec" => Op::FromVec { r, es: es()? }, "from_iter_entries" => Op::FromIterEntries { r, es: es()? }, "from_iter_pairs" => Op::FromIterPairs { r, es: es()? }, "from_parse" => Op::FromParse { r, es: es()? },
+            "sort" => Op::Sort { r }, "from_vec" => Op::FromVec { r, es: es()? }, "from_iter_entries" => Op::FromIterEntries { r, es: es()? }, "from_iter_pairs" => Op::FromIterPairs { r, es: es()? }, "from_parse" => Op::FromParse { r, es: es()? }, "extend_panicking" => Op::ExtendPanicking { r, es: es()?, after: u("panic_after")?, pairs: j.get("pairs").and_then(J::as_bool).unwrap_or(false) },
             "extend_entries" => Op::ExtendEntries { r, es: es()? }, "extend_pairs" => Op::ExtendPairs { r, es: es()? }, "extend_from" => Op::ExtendFrom { r, s: u("src")? },
             "iter_mut_set" => Op::IterMutSet { r, i: u("index")?, v: v()? }, "get_mut_set" => Op::GetMutSet { r, k: k()?, pull: u("pull")?, v: v()? },
             "get_unique_mut_set" => Op::GetUniqueMutSet { r, k: k()?, v: v()? }, "get_or_insert_with" => Op::GetOrInsertWith { r, k: k()?, v: v()? },
@@ -251,7 +255,7 @@ impl Op {
         }
         if let Some(c) = self.cancel() { d.usize(c.pull); d.u8(c.then as u8); }
         if let Some(es) = self.entries() { d.usize(es.len()); for (k, v) in es { d.str(k); v.digest(d); } }
-        match self { Op::RemoveAt { i, .. } | Op::IterMutSet { i, .. } => d.usize(*i), Op::GetMutSet { pull, .. } => d.usize(*pull), Op::ExtendFrom { s, .. } => d.usize(*s), Op::CloneTo { dst, from, .. } => { d.usize(*dst); d.u8(*from as u8) }
+        match self { Op::RemoveAt { i, .. } | Op::IterMutSet { i, .. } => d.usize(*i), Op::GetMutSet { pull, .. } => d.usize(*pull), Op::ExtendFrom { s, .. } => d.usize(*s), Op::ExtendPanicking { after, pairs, .. } => { d.usize(*after); d.u8(*pairs as u8) } Op::CloneTo { dst, from, .. } => { d.usize(*dst); d.u8(*from as u8) }
             Op::GetMutOrInsertWith { set, .. } => if let Some(s) = set { s.digest(d) }, _ => {} }
     }
 }
@@ -443,7 +447,8 @@ pub fn gen_hist(rng: &mut Rng, max_len: usize) -> HistSc {
             21 => Op::CloneTo { r, dst: rng.usize_below(REGISTERS), from: rng.chance(1, 2) },
             22 => Op::IntoIterRebuild { r },
             23 => Op::Fresh { r },
-            _ => Op::FromParse { r, es: gen_entries(rng, &uni, 10) },
+            24 => Op::FromParse { r, es: gen_entries(rng, &uni, 10) },
+            _ => Op::ExtendPanicking { r, es: gen_entries(rng, &uni, 8), after: rng.usize_below(8), pairs: rng.chance(1, 2) },
         };
         ops.push(op);
     }
@@ -482,7 +487,7 @@ pub fn hist_shrink_candidates(sc: &HistSc) -> Vec<HistSc> {
         match &mut ops[i] {
             Op::Push { v, .. } | Op::PushEntry { v, .. } | Op::PushFront { v, .. } | Op::PushEntryFront { v, .. } | Op::Insert { v, .. } | Op::InsertFront { v, .. } | Op::IterMutSet { v, .. }
             | Op::GetUniqueMutSet { v, .. } | Op::GetOrInsertWith { v, .. } => { if !v.is_simple() { *v = V::Null; changed = true; } }
-            Op::FromVec { es, .. } | Op::FromIterEntries { es, .. } | Op::FromIterPairs { es, .. } | Op::FromParse { es, .. } | Op::ExtendEntries { es, .. } | Op::ExtendPairs { es, .. } => {
+            Op::FromVec { es, .. } | Op::FromIterEntries { es, .. } | Op::FromIterPairs { es, .. } | Op::FromParse { es, .. } | Op::ExtendPanicking { es, .. } | Op::ExtendEntries { es, .. } | Op::ExtendPairs { es, .. } => {
                 if es.len() > 8 { let h = es.len() / 2; es.truncate(h); changed = true; } else if es.len() > 1 { es.pop(); changed = true; } else if es.iter().any(|e| !e.1.is_simple()) { for e in es.iter_mut() { e.1 = V::Null; } changed = true; }
             }
             _ => {}
@@ -492,7 +497,7 @@ pub fn hist_shrink_candidates(sc: &HistSc) -> Vec<HistSc> {
             if es.len() > 8 {
                 let mut ops = sc.ops.clone();
                 match &mut ops[i] {
-                    Op::FromVec { es, .. } | Op::FromIterEntries { es, .. } | Op::FromIterPairs { es, .. } | Op::FromParse { es, .. } | Op::ExtendEntries { es, .. } | Op::ExtendPairs { es, .. } => { let h = es.len() / 2; es.drain(..h); }
+                    Op::FromVec { es, .. } | Op::FromIterEntries { es, .. } | Op::FromIterPairs { es, .. } | Op::FromParse { es, .. } | Op::ExtendPanicking { es, .. } | Op::ExtendEntries { es, .. } | Op::ExtendPairs { es, .. } => { let h = es.len() / 2; es.drain(..h); }
                     _ => {}
                 }
                 out.push(HistSc { ops, ..sc.clone() });
@@ -509,7 +514,7 @@ pub fn hist_shrink_candidates(sc: &HistSc) -> Vec<HistSc> {
             match op {
                 Op::Push { k, .. } | Op::PushEntry { k, .. } | Op::PushFront { k, .. } | Op::PushEntryFront { k, .. } | Op::Insert { k, .. } | Op::InsertFront { k, .. } | Op::Remove { k, .. }
                 | Op::RemoveUnique { k, .. } | Op::GetMutSet { k, .. } | Op::GetUniqueMutSet { k, .. } | Op::GetOrInsertWith { k, .. } | Op::GetMutOrInsertWith { k, .. } => *k = rename(k),
-                Op::FromVec { es, .. } | Op::FromIterEntries { es, .. } | Op::FromIterPairs { es, .. } | Op::FromParse { es, .. } | Op::ExtendEntries { es, .. } | Op::ExtendPairs { es, .. } => for e in es.iter_mut() { e.0 = rename(&e.0) },
+                Op::FromVec { es, .. } | Op::FromIterEntries { es, .. } | Op::FromIterPairs { es, .. } | Op::FromParse { es, .. } | Op::ExtendPanicking { es, .. } | Op::ExtendEntries { es, .. } | Op::ExtendPairs { es, .. } => for e in es.iter_mut() { e.0 = rename(&e.0) },
                 _ => {}
             }
         }
